@@ -20,7 +20,17 @@ or the reverse — is a differing `recheck`/`readfile`/`readdir`/`dump` line) on
   (a) the corpus, (b) `pathenum`: path.Clean / CleanPath / ReduceAbsPath on every string up to a bound
   over {a . /}, (c) sharded random histories (16 methods, child views at any depth, all spellings,
   alias probes keep/mutate/recheck, full `dump` walks), (d) every op sequence of length <= 2 (quick) /
-  <= 3 (thorough) over {WriteFile, MkdirAll, Remove, RemoveAll, Copy, ReadDir} x 2 names x 6 spellings.
+  <= 3 (thorough) over {WriteFile, MkdirAll, Remove, RemoveAll, Copy, ReadDir} x 2 names x 6 spellings,
+  (e) nested views (harness/internal/fsdrv/nest.go): `Filespace(p)` on a child view rooted 1..3 levels down with
+  unreduced spellings (inner `..`, leading `/`, `.`, empty elements) that stay inside the view (must open
+  base ++ reduce p) or pass its root while staying inside the filespace (`../s`, `w/../../s`, `/../s`: must
+  fail); every such call is followed by a mutation and a dump through the new handle and a dump of the root, so
+  a view handed out where none may exist is a differing result line.  Random (in (c) and in the oracle stream)
+  and exhaustive (`fs gennest`: every spelling of <= 4 (quick) / 5 (thorough) elements over {a s .. . ""}).
+  Model side: `MemFS.openView` takes the raw bytes and reduces them relative to the view (theorems view_of_view,
+  view_escape_refused; the history theorem memfs_run_refines covers both through FS.viewsAfter).
+When the two sides disagree on ok/err of a `view` line the judge exercises the handle (a marker write through it,
+its dump, the dump of every root): the disagreement is about the handle table, which no dump of a root shows.
 Spec vs implementation without the Lean model: `fs oracle` (flat reference written from the sentences of
 the property; listings as sets, snapshots by construction).
 
@@ -41,6 +51,7 @@ import concurrent.futures
 import glob
 import json
 import os
+import re
 import subprocess
 
 import fs_tie
@@ -88,6 +99,7 @@ META = dict(
 )
 
 NSHARDS = 16
+GENCMD = dict(rand="gen", exh="genx", nest="gennest")   # campaign kind -> generator sub-command of `fs`
 
 
 class ImplTimeout(Exception):
@@ -179,8 +191,7 @@ def _shard(ctx, go, model, kind, n, shard, heap=None):
     """one shard of a campaign: generate, run all sides, compare.  Returns a dict."""
     tag = "%s%02d" % (kind, shard)
     ops, gstat = ctx.path(tag + ".ops"), ctx.path(tag + ".gstat")
-    rc, err = _sh(ctx, [go, "gen" if kind == "rand" else "genx", str(n), str(shard), str(NSHARDS)],
-                  stdout=ops, stderr=gstat)
+    rc, err = _sh(ctx, [go, GENCMD[kind], str(n), str(shard), str(NSHARDS)], stdout=ops, stderr=gstat)
     if rc != 0:
         raise RuntimeError("generator failed: rc=%d" % rc)
     stats = ctx.path(tag + ".stats")
@@ -212,11 +223,24 @@ def _differs(ctx, go, model, lines, tag="dd"):
 
 
 def _with_dumps(lines):
-    """the op lines followed by a dump of every root filespace they create"""
+    """the op lines followed by a dump of every handle they bind: the views first (a view the specification
+    says was not opened answers `nofs` there), then the root filespaces"""
     lines = [l for l in lines]
     while lines and lines[-1].startswith("dump "):
         lines.pop()
-    return lines + ["dump %s" % l.split(" ")[1] for l in lines if l.startswith("new ")]
+    return (lines + ["dump %s" % l.split(" ")[1] for l in lines if l.startswith("view ")]
+            + ["dump %s" % l.split(" ")[1] for l in lines if l.startswith("new ")])
+
+
+def _handle_probe(cut, impl_line, model_line):
+    """When the two sides disagree about whether `Filespace(p)` handed out a view (ok against err), the
+    disagreement is about the handle table, which no dump of a root shows: exercise the handle.  A write of a
+    marker through it, then (by _with_dumps) its own dump and the dump of every root: a handle that must not
+    exist answers `nofs` to all of them and the roots are unchanged."""
+    f = cut[-1].split(" ") if cut else []
+    if len(f) == 4 and f[0] == "view" and {impl_line, model_line} == {"ok", "err"}:
+        return cut + ["write %s 70726f6265 01" % f[1]]
+    return cut
 
 
 def _judge(ctx, go, model, hist, what):
@@ -229,6 +253,8 @@ def _judge(ctx, go, model, hist, what):
     d = _first_diff(a, b)
     # cut after the first differing line and look at the whole tree of every root filespace afterwards
     cut = small[:d + 1] if d is not None else small
+    if d is not None and d < len(ia) and d < len(mb):
+        cut = _handle_probe(cut, ia[d], mb[d])
     probe = _with_dumps(cut)
     open(ops, "w").write("\n".join(probe) + "\n")
     out = ctx.path("min.ref")
@@ -299,13 +325,31 @@ def _oracle(ctx, go, n):
                 break
             reported += 1
 
-            def still(ls):
+            # minimise towards the strongest class seen: a value difference is not traded for a verdict one
+            cls = "FAIL value" if any(f.startswith("FAIL value") for f in fails) else "FAIL "
+
+            def still(ls, cls=cls):
                 ops = ctx.path("odd.ops")
                 open(ops, "w").write("\n".join(_with_dumps(ls)) + "\n")
                 out = ctx.path("odd.out")
                 _sh(ctx, [go, "refcheck"], stdin=ops, stdout=out)
-                return any(l.startswith("FAIL ") for l in open(out))
-            small = _with_dumps(ctx.ddmin(hist, still))
+                return any(l.startswith(cls) for l in open(out))
+            core = ctx.ddmin(hist, still)
+            # a `view` the reference refuses and the implementation grants: exercise the handle right after it (see
+            # _handle_probe) so that the replay shows what is reachable through it, not only that it exists
+            ops = ctx.path("odd.ops")
+            open(ops, "w").write("\n".join(_with_dumps(core)) + "\n")
+            out = ctx.path("odd.out")
+            _sh(ctx, [go, "refcheck"], stdin=ops, stdout=out)
+            granted = set(m.group(1) for l in open(out) if l.startswith("FAIL verdict") and "want=err got=ok" in l
+                          for m in [re.search(r" op=view (\d+) ", l)] if m)
+            probed = []
+            for l in core:
+                probed.append(l)
+                ff = l.split(" ")
+                if ff[0] == "view" and len(ff) == 4 and ff[1] in granted:
+                    probed.append("write %s 70726f6265 01" % ff[1])
+            small = _with_dumps(probed)
             ops = ctx.path("odd.ops")
             open(ops, "w").write("\n".join(small) + "\n")
             out = ctx.path("odd.out")
@@ -337,14 +381,22 @@ def _run(ctx):
     n_rand = ctx.pick(3000, 300000)
     n_exh = ctx.pick(2, 3)
     n_path = ctx.pick(8, 11)
+    n_nest = ctx.pick(4, 5)
     n_oracle = ctx.pick(3000, 100000)
     ctx.rule = ("random: %d histories (reset, new 0 mem, 5..38 ops over the 16 Filespace methods + view/dump/keep/"
                 "mutate/recheck, names {a,b,c}, depth<=4, spelling mutator, ~10%% climbing paths, contents incl. "
                 "empty/1 byte/00 80 ff/4 KiB), %d shards from VERIF_SEED; exhaustive: every op sequence of length <= %d "
                 "over {write,mkdir,remove,removeall,readdir}x12 path strings + copy x 12 x 12 (2 names x 6 spellings), "
                 "each followed by a dump; pathenum: Clean/CleanPath/ReduceAbsPath on every string of length <= %d over "
-                "{a . /}.  non-trivial = the history has at least one successful mutation and one error; distinct = "
-                "distinct op-line sequences (64-bit digest)" % (n_rand, NSHARDS, n_exh, n_path))
+                "{a . /}; nested views (random table entry, weight 6 of 108, and in the oracle stream): Filespace(p) on a "
+                "view rooted 1..3 levels down (one call or a chain of views of views) with an unreduced spelling — "
+                "inside (`x/y/../../t`, `/./t/z/..//u`: must open base++reduce p), self, escape (`../s`, `w/../../s`, "
+                "`/../s`, `../<own name>`: the walk passes the view's root but stays inside the filespace: must fail), "
+                "over (leaves the filespace) — each followed by a mutation and a dump THROUGH the new handle and a dump "
+                "of the root; nested exhaustive: depths 1..3 x {one call, chain} x every spelling of <= %d elements over "
+                "{a s .. . \"\"} with/without leading `/`, same follow-up.  non-trivial = the history has at least one "
+                "successful mutation and one error; distinct = distinct op-line sequences (64-bit digest)"
+                % (n_rand, NSHARDS, n_exh, n_path, n_nest))
     concrete_found = False
     try:
         # --- corpus + path functions (single stream)
@@ -374,7 +426,8 @@ def _run(ctx):
         if hd is not None and d is None:
             concrete_found |= _judge(ctx, go, heap, _history_at(ops, hd), "corpus (heap-level model m_fsheap)")
         # --- random + exhaustive campaigns, sharded over the cores
-        jobs = [("rand", n_rand, s) for s in range(NSHARDS)] + [("exh", n_exh, s) for s in range(NSHARDS)]
+        jobs = ([("rand", n_rand, s) for s in range(NSHARDS)] + [("exh", n_exh, s) for s in range(NSHARDS)]
+                + [("nest", n_nest, s) for s in range(NSHARDS)])
         with concurrent.futures.ThreadPoolExecutor(NSHARDS) as ex:
             results = list(ex.map(lambda j: _shard(ctx, go, model, *j, heap=heap), jobs))
     except RuntimeError as e:
@@ -382,15 +435,16 @@ def _run(ctx):
     judged = 0
     exh = dict(histories=0, nontrivial=0, lines=0)
     rnd = dict(histories=0, nontrivial=0, lines=0)
+    nst = dict(histories=0, nontrivial=0, lines=0)
     gen_counts = {}
     for r in results:
         st = r["stats"]
-        acc = rnd if r["kind"] == "rand" else exh
+        acc = dict(rand=rnd, exh=exh, nest=nst)[r["kind"]]
         for k in acc:
             acc[k] += st[k]
         ctx.evaluations += st["lines"]
         for k, v in st["histogram"].items():
-            ctx.histogram[("" if r["kind"] == "rand" else "exh:") + k] += v
+            ctx.histogram[dict(rand="", exh="exh:", nest="nestx:")[r["kind"]] + k] += v
         for hx_ in st.get("hashes", []):
             ctx.distinct.add(bytes.fromhex(hx_.rjust(16, "0")))
         for line in r["gstat"].split("\n"):
@@ -400,12 +454,15 @@ def _run(ctx):
                     gen_counts[k] = gen_counts.get(k, 0) + int(v)
             elif line.startswith("exhstat ") and r["shard"] == 0:
                 ctx.extra["exhaustive_space"] = dict(t.split("=") for t in line.split()[1:])
+            elif line.startswith("neststat ") and r["shard"] == 0:
+                ctx.extra["nested_view_space"] = dict(t.split("=") for t in line.split()[1:])
         if r["diff"] == "timeout":
             ctx.violation("impl-vs-model", "%s shard %d: the implementation-side driver did not finish within the time "
                           "limit (an interface call that never returns and keeps a core busy); the op file is the "
                           "generator output `fs %s %d %d %d` with VERIF_SEED=%d"
-                          % (r["kind"], r["shard"], "gen" if r["kind"] == "rand" else "genx",
-                             n_rand if r["kind"] == "rand" else n_exh, r["shard"], NSHARDS, ctx.seed), concrete=False)
+                          % (r["kind"], r["shard"], GENCMD[r["kind"]],
+                             dict(rand=n_rand, exh=n_exh, nest=n_nest)[r["kind"]], r["shard"], NSHARDS, ctx.seed),
+                          concrete=False)
         elif r["diff"] is not None and judged < 3:
             judged += 1
             concrete_found |= _judge(ctx, go, model, _history_at(r["ops"], r["diff"]),
@@ -420,14 +477,17 @@ def _run(ctx):
         ctx.histogram["gen:" + k] = v
     ctx.extra["random_run"] = rnd
     ctx.extra["exhaustive_run"] = exh
+    ctx.extra["nested_view_run"] = nst
     ctx.extra["heap_model"] = dict(driver="m_fsheap", result_lines_compared=heap_lines,
                                    shards_differing=sum(1 for r in results if r.get("hdiff") is not None),
                                    note="every op file of the corpus, the random and the exhaustive campaign is also "
                                         "run through the heap-level model; its result stream is compared line by line "
                                         "with the implementation's")
     ctx.exhaustive = False  # the enumerated scope is complete to its bound; the property's domain is unbounded
-    ctx.distinct_extra = exh["nontrivial"]  # enumerated sequences are distinct by construction
-    ctx.extra["distinct_nontrivial_breakdown"] = dict(random=len(ctx.distinct), enumerated=exh["nontrivial"])
+    # enumerated sequences (both enumerations) are distinct by construction
+    ctx.distinct_extra = exh["nontrivial"] + nst["nontrivial"]
+    ctx.extra["distinct_nontrivial_breakdown"] = dict(random=len(ctx.distinct), enumerated=exh["nontrivial"],
+                                                      enumerated_nested_views=nst["nontrivial"])
     # coverage gaps: every op must have been seen succeeding and failing
     gaps = []
     for cmd in ("write", "writer", "mkdir", "remove", "removeall", "copy", "copyfile", "copydir", "view"):
@@ -439,8 +499,6 @@ def _run(ctx):
                 "dump:tree", "dump:err", "recheck:data", "recheck:list", "mutate:ok"):
         if not ctx.histogram.get(key):
             gaps.append(key)
-    if gaps:
-        ctx.notes.append("coverage gap: no case of " + ", ".join(gaps))
     # samples: the first history of shard 0 with both streams
     r0 = [r for r in results if r["kind"] == "rand" and r["shard"] == 0][0]
     try:
@@ -455,6 +513,32 @@ def _run(ctx):
         concrete_found |= _oracle(ctx, go, n_oracle)
     except RuntimeError as e:
         ctx.fatal(str(e))
+    # the nested-view family (fsdrv/nest.go): measured reach per campaign, and what would silently cut it
+    fam = {k: v for k, v in sorted(ctx.histogram.items())
+           if any(k.startswith(pre + t) for pre in ("", "nestx:", "oracle:") for t in ("nest:", "nestuse:"))}
+    ctx.extra["nested_view_family"] = fam
+    for pre, kinds in (("", ("inside:ok", "self:ok", "escape:err", "over:err")),
+                       ("nestx:", ("inside:ok", "escape:err", "over:err")),
+                       ("oracle:", ("inside:ok", "self:ok", "escape:err", "over:err"))):
+        for k in kinds:
+            if not fam.get(pre + "nest:" + k):
+                gaps.append(pre + "nest:" + k)
+        for k in ("inside:tree", "inside:ok", "escape:nofs"):
+            if not fam.get(pre + "nestuse:" + k):
+                gaps.append(pre + "nestuse:" + k)
+    unbound = sum(v for k, v in fam.items() if "nestuse:" not in k and k.endswith(":nofs"))
+    opened = sum(v for k, v in fam.items() if "nestuse:" not in k)
+    if opened and unbound * 10 > opened:
+        ctx.notes.append("nested-view family: %d of %d tagged `view` lines went through an unbound parent (`nofs`): the "
+                         "generator's idea of where its handles are rooted is off" % (unbound, opened))
+    rejected = {k: v for k, v in ctx.histogram.items() if k.endswith(":bad-op")}
+    ctx.extra["rejected_lines"] = dict(bad_op=sum(rejected.values()), by_word=rejected,
+                                       view_through_unbound_parent=unbound)
+    if rejected:
+        ctx.notes.append("the line protocol rejected %d generated lines (bad-op): %s"
+                         % (sum(rejected.values()), ", ".join(sorted(rejected))))
+    if gaps:
+        ctx.notes.append("coverage gap: no case of " + ", ".join(gaps))
     ctx.assumptions += [
         "value model: Go slices and maps behave as values (no aliasing).  heap model (snapshot clause): `make`+`copy` "
         "gives storage disjoint from everything allocated before; `append(s, x...)` writes only into the array of s "
